@@ -72,7 +72,7 @@ def replay_model(rep, pid, body):
             rep.violation("counterexample", f"{pid} whole-model monitor (replay): {msg}", {"config": body["config"]}, True)
 
 
-def run(pid, rule, assumptions, n_quick=60, n_thorough=800, ndates=4, opts=None, extra=None, also_component=None):
+def run(pid, rule, assumptions, n_quick=60, n_thorough=800, ndates=4, opts=None, extra=None, also_component=None, corr=()):
     rep = C.Report(pid)
     rep.trusted = list(C.BASE_TRUST) + TRUST_NET
     thorough = C.tier() == "thorough"
@@ -83,6 +83,14 @@ def run(pid, rule, assumptions, n_quick=60, n_thorough=800, ndates=4, opts=None,
             replay_model(rep, pid, body)
             return rep.finish("replay of one recorded model", assumptions)
     C.proof_stage(rep, f"props/{pid}.v")
+    if corr:
+        # the network model of coq/Net.v (the object of the network-level theorems) against the real classes
+        import corr_comp as K
+        import corr_kinds  # noqa: F401
+        import corr_net  # noqa: F401
+        import corr_star  # noqa: F401
+        for fam, nq, nt, maxops in corr:
+            K.correspondence(rep, fam, nt if thorough else nq, maxops, tag=pid.lower(), maxdigits=30)
     seen = monitor_models(rep, pid, n_thorough if thorough else n_quick, ndates if not thorough else ndates + 3, opts)
     if extra:
         seen.update(extra(rep, thorough) or {})
